@@ -229,6 +229,7 @@ def subscript(I, base, key):
     if isinstance(base, Arr):
         if key is GENIDX: return base.elem
         if isinstance(key, slice) and key == slice(None, None, None): return base
+        if isinstance(key, slice) and getattr(base, 'grid', False): return base
         if isinstance(key, tuple):
             if len(key) == 2 and (key[0] is GENIDX or (isinstance(key[0], slice) and key[0] == slice(None, None, None))):
                 e = base.elem
@@ -597,12 +598,21 @@ def call_lib(I, name, args, kw, node=None):
         from .sx import Env
         src = args[0].payload if isinstance(args[0], Opaque) and args[0].tag == 'code' else args[0]
         if not isinstance(src, str) or '<str>' in src: raise Unsupported('%s of a non-constant string' % c)
+        if c == 'eval':
+            try:
+                tree_ = ast.parse(src, mode='eval')
+            except SyntaxError:
+                raise RaiseSignal('SyntaxError')
         glb = args[1] if len(args) > 1 and args[1] is not None else None
         env = Env(I.cur_module, None, None)
         if isinstance(glb, dict): env.locals = glb
         elif getattr(I, 'cur_env', None) is not None: env = I.cur_env
         if c == 'eval':
-            return I.eval(ast.parse(src, mode='eval').body, env)
+            try:
+                return I.eval(tree_.body, env)
+            except Unsupported as u:
+                if 'unresolved name' in str(u): raise RaiseSignal('NameError', str(u))
+                raise
         I.block(ast.parse(src).body, env); return None
     if c == 'bool':
         return I.truth(args[0])
@@ -742,7 +752,9 @@ def call_builtin_method(I, f, args, kw):
             I.run.dropped.append('batch-dependent %s.%s() line %s' % (o.origin, m, I.run.lineno))
             return sp.Symbol('%s_%s' % (m, o.origin or 'arr'), real=True)
         if m == 'tolist': return o
-        if m == 'sort': raise Unsupported('in-place sort of a request-sized array')
+        if m == 'sort':
+            if getattr(o, 'grid', False): return None
+            raise Unsupported('in-place sort of a request-sized array')
         if m == 'reshape': return Arr(o.elem)
     if isinstance(o, Vec):
         if m in ('copy', 'flatten', 'ravel', 'astype', 'squeeze'): return Vec(list(o.items))
